@@ -33,6 +33,11 @@ pub(super) fn start_background_workers(fsync_schedule: FsyncSchedule) -> Arc<mps
         FsyncSchedule::NoFsync => 10000, // Even less frequent cleanup when no fsyncing
     };
 
+    #[cfg(walrus_verif)]
+    let verif_ticket = crate::wal::verif::bg_register();
+    #[cfg(walrus_verif)]
+    let sleep_millis = crate::wal::verif::bg_sleep_ms(sleep_millis);
+
     thread::spawn(move || {
         let mut pool = pool;
         let tick = tick;
@@ -43,6 +48,8 @@ pub(super) fn start_background_workers(fsync_schedule: FsyncSchedule) -> Arc<mps
         let mut ring = io_uring::IoUring::new(2048).expect("Failed to create io_uring");
 
         loop {
+            #[cfg(walrus_verif)]
+            crate::wal::verif::bg_gate(&verif_ticket, &tick);
             thread::sleep(Duration::from_millis(sleep_millis));
 
             // Phase 1: Collect unique paths to flush
